@@ -11,7 +11,7 @@ from simkit.rng import cval
 from simkit import hw
 from worlds.components import FACTORIES, ORDER
 
-ELAB_TIMEOUT_S = 120
+ELAB_TIMEOUT_S = 60
 
 
 class _Timeout(Exception):
@@ -34,7 +34,7 @@ class ElabWorld(World):
         "RTLIL text equality of successive conversions is taken as 'the same hardware'; trace "
         "equality of two simulations under identical stimulus as its behavioural counterpart",
         "a constructor raising ValueError or TypeError is a legal refusal; any exception after "
-        "acceptance, RecursionError and a 120 s watchdog are violations",
+        "acceptance, RecursionError and a 60 s watchdog (typical elaboration: 0.05 s) are violations",
     )
 
     def runs(self, prop, tier):
